@@ -489,3 +489,9 @@ def coq_equation(c, mr):
             return None
         return "c10_to_entropy sha256 %s = %s" % (coq_bytes(s), _lit(mr))
     return None   # to_seed is the oracle call itself (C10_seed_def is proved by reflexivity)
+
+
+# ops whose answer must not depend on the concrete bytes-like type of their arguments (they agree on the pinned tree;
+# tools/bytearray_probe.py); common.py re-runs a sample of their cases with bytearray arguments
+BYTEARRAY_OPS = {'calculate_mnemonic_phrase'}
+MEMORYVIEW_OPS = {'calculate_mnemonic_phrase'}
